@@ -751,7 +751,7 @@ def _check_module(ck, camp, fail, schema, mod, code, kind, flags, scalar_map, se
             have_values = [m.value for m in cls]
             if sorted(map(repr, have_values)) != sorted(map(repr, t.values)) or len(cls.__members__) != len(t.values):
                 renamed = sorted(v for v in t.values if c17_enum.must_rename(v, flags, t.values))
-                return fail("enum_values", f"enum {n}: the Enum's values {sorted(map(repr, have_values))} ≠ value names {sorted(t.values)} "
+                return fail("enum_values", f"enum {n}: the Enum's values {sorted(have_values, key=repr)} ≠ value names {sorted(t.values)} "
                             f"(members {sorted(cls.__members__)})", renamed_members=bool(renamed))
             # … and the member NAMES are the value names too, wherever Python lets a member have that name
             # (a keyword, `mro`, a leading underscore, an attribute of the Enum machinery cannot be one;
@@ -1098,7 +1098,8 @@ def run(ck: Check) -> None:
     ck.assumptions += [
         "graphql-core (build_schema, lexicographic_sort_schema, the is_*_type predicates) is used as it is; the model takes the order of fields and interfaces it reports as a parameter",
         "type expressions are well-formed (no `!` directly on `!`): the SDL grammar and graphql-core both refuse the others (checked in the malformed stream)",
-        "field names are prefixed f_ and enum values V_ so that member-name mangling (C07), keyword clashes and the type-name/field-name alias defect (C02) stay out of this property",
+        "field names are prefixed f_ so that member-name mangling (C07), keyword clashes and the type-name/field-name alias defect (C02) stay out of this property; enum values are prefixed V_ everywhere except in the enum-renaming family (c17_enum), whose value names are the ones the enum resolver must rename — there the property is read as: the Enum's VALUES are the GraphQL value names (JSON carries values), the member name equals the value name wherever Python allows it",
+        "enum value names starting with `__` (reserved by GraphQL introspection: validate_schema refuses them) occur only in the parser-level correspondence gqlenum.values, not in end-to-end documents",
         "types named Query / Mutation are skipped by the generator by design (Gen/GraphqlTables.skippedTypeNames); documents name their root type differently",
         "a non-null input field is required in the generated class whether or not the schema gives it a default (the property's statement: a non-null field is required); its default is then not observable on the member and is compared only under force-optional; conforming input objects supply every non-null field",
         "default values are compared with graphql-core's coerced `default_value` (value_from_ast): type-strict (0, 0.0, False differ), a float by its repr, a dict regardless of key order, an Enum member as the value it stands for; TypedDict output has no defaults; msgspec output is not executable here",
@@ -1119,7 +1120,7 @@ def run(ck: Check) -> None:
     guard.campaign(ck, c17_fields.campaign_defaults_static, me, 12 if quick else 120)
     guard.campaign(ck, c17_fields.campaign_clash, me, 40 if quick else 200)
     guard.campaign(ck, c17_enum.campaign_enum_values, me, 150 if quick else 2000)
-    guard.campaign(ck, c17_enum.campaign_enum_family, me, 28 if quick else 300)
+    guard.campaign(ck, c17_enum.campaign_enum_family, me, 24 if quick else 300)
     guard.campaign(ck, c17_order.campaign_family, me, quick)
     guard.campaign(ck, c17_order.campaign_all_orders, me, quick)
     guard.campaign(ck, campaign_e2e, 150 if quick else 1200, 2)
